@@ -677,6 +677,9 @@ func (g *gen) rewritePkgRefs(info *types.Info, node ast.Node) ast.Node {
 				name := id.Name
 				if g.nameInFileScope(name) || inNewNames(name) {
 					name = pickName(name)
+					// The guard has no object to record the name under:
+					// keep it from being handed out a second time.
+					present[name] = true
 					guardNames[id.Pos()] = name
 					c.Replace(ast.NewIdent(name))
 					return false
